@@ -17,3 +17,5 @@ UNITS += [VIO.unit_raw_rows().also("C05")]
 UNITS += [VIO.unit_reader_close()]
 from props import _groups as _G
 UNITS = _G.with_groups(PROPERTY, UNITS, _G.READERS, _G.VALIDATION, _G.CHECKS)
+from contracts import structure as ST2
+UNITS += [ST2.unit_no_hidden_state().also("C05")]
